@@ -512,6 +512,7 @@ type region struct {
 	isElem   bool
 	global   bool
 	ghostAll bool // the whole ghost map
+	sort     Sort // sort of the heap when known from the location's type
 }
 
 // evalRegions turns a modifies list into heap regions, evaluated in env's
@@ -561,7 +562,7 @@ func (vc *VC) evalRegions(env *Env, locs []Expr) ([]region, error) {
 			}
 			switch u := xv.Typ.Underlying().(type) {
 			case *types.Slice:
-				r := region{heap: elemHeapName(u.Elem()), ref: sBase(xv.T), isElem: true, whole: x.Lo == nil}
+				r := region{heap: elemHeapName(u.Elem()), ref: sBase(xv.T), isElem: true, whole: x.Lo == nil, sort: arraySort(SInt, arraySort(SInt, vc.sortOf(u.Elem())))}
 				if x.Lo != nil {
 					lo, err := env.eval(x.Lo)
 					if err != nil {
@@ -666,6 +667,9 @@ func (vc *VC) havocRegions(st, pre *State, regs []region, pc Term) {
 }
 
 func (vc *VC) guessHeapSort(r region) Sort {
+	if r.sort != "" {
+		return r.sort
+	}
 	return arraySort(SInt, SInt)
 }
 
